@@ -681,12 +681,12 @@ type ygClient struct {
 // in ygClient.point.
 const ygLockBase = 1000
 
-// ygOnHandlerGoroutine tells whether the caller runs below the receiver's upload handler (the request goroutine
-// of a serialized client operation) rather than on a channel goroutine. Only the goroutine's own stack is read.
-func ygOnHandlerGoroutine() bool {
+// ygOnGoroutineWith tells whether the caller's own stack contains mark, e.g. the receiver's upload handler
+// (the request goroutine of a serialized client operation) rather than a channel goroutine.
+func ygOnGoroutineWith(mark string) bool {
 	buf := make([]byte, 32<<10)
 	n := runtime.Stack(buf, false)
-	return bytes.Contains(buf[:n], []byte(").SegmentHandlerFunc("))
+	return bytes.Contains(buf[:n], []byte(mark))
 }
 
 // ygCurrent is the runner that receives the yields of the program under test. The hook variable of the
@@ -718,6 +718,9 @@ type ygRunner struct {
 	clients []*ygClient
 	wg      sync.WaitGroup
 	Hung    bool
+	// HandlerMark, when set, restricts yields to goroutines whose stack contains it (other goroutines of the
+	// program under test that reach the hook are ignored)
+	HandlerMark string
 }
 
 func (r *ygRunner) wait(w *ygWord, v uint64, deadline time.Time) bool {
@@ -772,7 +775,7 @@ func (r *ygRunner) Yield(point string) {
 		return // not inside a serialized operation
 	}
 	cl := r.clients[t-1]
-	if !ygOnHandlerGoroutine() {
+	if r.HandlerMark != "" && !ygOnGoroutineWith(r.HandlerMark) {
 		return // another goroutine of the program under test (a channel goroutine)
 	}
 	op := cl.ops[cl.cur]
